@@ -29,6 +29,20 @@ theorem hybrid_threshold_irrelevant (E : Engines) (valid : List UInt8 → Prop) 
 theorem hybridFindAll_eq_select (E : Engines) (t : Int) (r : Re) (b : List UInt8) :
     hybridFindAll E t r b = hybridSelect t b.length (E.grafana r b) (E.re2 r b) := rfl
 
+/-- the case setting is part of what is compiled: the case-sensitive and the case-insensitive reading of one regexp text
+    are different patterns (so nothing compiled for one may be served to the other) -/
+theorem compiledPattern_case_distinct (printed : List UInt8) :
+    compiledPattern true printed ≠ compiledPattern false printed := by
+  intro h
+  have := congrArg List.length h
+  simp [compiledPattern] at this
+  omega
+
+/-- what `newRegexpMatchTree` compiles is a function of the query alone: the model has no other input — in particular no
+    threshold and no history of earlier searches (validated against the real function in long sequences, per threshold) -/
+theorem matchTreePatterns_hybrid_eq (cs : Bool) (printed : List UInt8) :
+    matchTreePatterns cs false printed = (compiledPattern cs printed, some (compiledPattern cs printed)) := rfl
+
 /-- **C28 at the match-tree level**: the candidate matches `regexpMatchTree.matches` produces for a document are the
     same under any two threshold settings, for content and for file names. -/
 theorem threshold_irrelevant (E : Engines) (valid : List UInt8 → Prop) (h : EnginesAgree E valid)
